@@ -35,6 +35,10 @@ pub struct GenCfg {
     pub d7: bool,
     /// only these pool entries (empty: all)
     pub pool_subset: Vec<usize>,
+    /// declare at least one global
+    pub force_globals: bool,
+    /// sprinkle calls of the harness-provided `(tick)` function (C11)
+    pub tick: bool,
 }
 
 impl GenCfg {
@@ -55,6 +59,8 @@ impl GenCfg {
             fault: false,
             d7: false,
             pool_subset: vec![],
+            force_globals: false,
+            tick: false,
         }
     }
     pub fn fragment() -> GenCfg {
@@ -463,6 +469,7 @@ impl<'t, 'b> G<'t, 'b> {
                 }
             },
             Ty::Int => match self.t.weighted(&[4, 2, 2, 3]) {
+                0 if self.cfg.tick && self.t.chance(1, 2) => Expr::Call { func: "tick".into(), args: vec![] },
                 0 => self.lit(ty, need_local, depth),
                 1 => {
                     let n = self.t.choose(4);
@@ -1404,7 +1411,7 @@ pub fn generate(t: &mut Tape, cfg: &GenCfg) -> Generated {
     let mut head: Vec<Item> = vec![];
     let mut supplied = BTreeMap::new();
     if cfg.globals {
-        let n = g.t.weighted(&[5, 3, 2, 1]);
+        let n = if cfg.force_globals { 1 + g.t.choose(4) } else { g.t.weighted(&[5, 3, 2, 1]) };
         for i in 0..n {
             let name = ["filepath", "gval", "opt_g", "items"][i].to_string();
             let quant = [Quant::One, Quant::One, Quant::Opt, Quant::Star, Quant::Plus][g.t.choose(5)];
